@@ -21,7 +21,7 @@ RULE = (
     "by the reference model (dense numpy completion). Non-trivial = nnz>=2 and at least one of: >=2 non-empty "
     "chunks, a diagonal and an off-diagonal pixel, a non-fixed layout, an extra value column, a non-default "
     "dtype or filter. Distinct by sha1 of the canonical case."
-    ' Also: input frames whose row labels are not a fresh RangeIndex (reversed, permuted, gappy, strings); optional input checks switched off in any combination on valid input; arguments equal to documented defaults left out; a CLI part in which metadata (JSON file incl. exponent-form floats) and assembly are given through `cooler load` / `cooler cload pairs --metadata --assembly`.'
+    ' Also: input frames whose row labels are not a fresh RangeIndex (reversed, permuted, gappy, strings); optional input checks switched off in any combination on valid input; arguments equal to documented defaults left out; a CLI part in which metadata (JSON file incl. exponent-form floats) and assembly are given through `cooler load` / `cooler cload pairs --metadata --assembly`; histories in which the same URI first holds, and is read as, a twin collection (same bin table and pixel count, pixels on other rows).'
 )
 ASSUMPTIONS = [
     "pixel input is sorted by (bin1_id, bin2_id) and upper-triangular in symmetric mode, as create_cooler documents for ordered input",
@@ -60,7 +60,7 @@ def cases(draw, max_chroms=4, max_bins=6):
     y_dt = draw(st.sampled_from(["float64", "int16"]))
     explicit = draw(st.booleans())
     form = draw(st.sampled_from(["frame", "frame-shuffled", "dict", "chunks-frame", "chunks-dict",
-                                 "chunks-frame", "arrayloader", "chunks-ensure-sorted", "dask"]))
+                                 "chunks-frame", "arrayloader", "chunks-ensure-sorted", "dask", "chunks-default"]))
     if form == "arrayloader":
         symmetric, colset, count_dt = True, ["count"], draw(st.sampled_from(["int32", "int64"]))
         rows = draw(gen.pixels(n, True, count=st.integers(1, 1000)))
@@ -97,6 +97,10 @@ def cases(draw, max_chroms=4, max_bins=6):
         "assembly": draw(ASSEMBLY),
         "categorical": draw(st.sampled_from([False, True, "lexical"])),
         "bins_extra": draw(st.sampled_from([None, None, "gc", "gc+mask"])),
+        # history: the same URI first holds (and is read as) a TWIN - same bin table, same number of pixels, other rows
+        "prior": draw(st.sampled_from([None, None, "twin"])),
+        # form chunks-default: `ordered` is left to its default (sort-and-merge in two steps) with a small fan-in / buffer
+        "max_merge": draw(st.sampled_from([2, 3, 4, 200])), "mergebuf": draw(st.sampled_from([1, 3, 10, 10**6])),
     }
     return case
 
@@ -186,7 +190,7 @@ def build_input(case):
                 c = [r for _, r in sorted(zip([(r[0], k) for r, k in zip(c, keys)], c), key=lambda t: t[0])]
             out.append(frame(c))
         return iter(out)
-    if form == "chunks-frame":
+    if form in ("chunks-frame", "chunks-default"):
         return iter([frame(c) for c in chunks])
     return iter([{k: v.to_numpy() for k, v in frame(c).items()} for c in chunks])
 
@@ -229,10 +233,23 @@ def check_roundtrip(case, ctx: Ctx):
                 check(cooler.Cooler(first).info["nnz"] == len(rows), "first creation from the loader lost pixels")
             finally:
                 ctx.clean(first)
+        if case.get("prior") == "twin" and rows:
+            from ..coolio import create_from_model
+
+            # mirror image across the anti-diagonal: still sorted-able, unique, upper-triangular; same nbins and nnz
+            twin = sorted([n - 1 - r[1], n - 1 - r[0], 1] for r in rows)
+            call("create twin at the same URI", create_from_model, uri, bt, twin, symmetric, h5opts={"compression": None})
+            tw = call("Cooler(twin)", cooler.Cooler, uri)
+            check(np.array_equal(call("twin matrix", lambda: tw.matrix(balance=False)[:]), model.dense(twin, n, symmetric, 0)), "twin collection reads wrongly")
+            _ = tw.matrix(balance=False, sparse=True)[:]
+            _ = tw.pixels()[:]
         skw = {"symmetric_upper": symmetric}
         if symmetric and case["junk"]:
             skw = {}        # the documented default (symmetric-upper storage) is left to the library
-        call("create_cooler", cooler.create_cooler, uri, bins, px, ordered=True, h5opts=_h5opts(case["h5opts"]), **skw, **kw)
+        okw = {"ordered": True}
+        if case["form"] == "chunks-default":
+            okw = {"max_merge": case.get("max_merge", 200), "mergebuf": case.get("mergebuf", 10**6)}
+        call("create_cooler", cooler.create_cooler, uri, bins, px, h5opts=_h5opts(case["h5opts"]), **okw, **skw, **kw)
         clr = call("Cooler()", cooler.Cooler, uri)
 
         # -- pixel table --------------------------------------------------
@@ -329,7 +346,7 @@ def check_roundtrip(case, ctx: Ctx):
         "chunks>=2" if nonempty_chunks >= 2 else "chunks<2",
         "emptychunk" if case["form"].startswith("chunks") and any(not c for c in gen.split_at(rows, case["cuts"])) else "no-emptychunk",
         "h5opts" if case["h5opts"] else "h5default", "meta" if case["metadata"] else "nometa",
-        "bins_extra" if case["bins_extra"] else "bins_plain"])
+        "bins_extra" if case["bins_extra"] else "bins_plain", "prior=" + str(case.get("prior") if rows else None)])
 
 
 def _same_types(a, b):
